@@ -276,3 +276,8 @@ func verifNumDigits(b *BigInt) int64 {
 	s := new(big.Int).Abs(b.MathBigInt()).String()
 	return int64(len(s))
 }
+
+// verifDigits returns the decimal digits of |b| (oracle side; does not use apd's Append).
+func verifDigits(b *BigInt) []byte {
+	return []byte(new(big.Int).Abs(b.MathBigInt()).String())
+}
